@@ -47,11 +47,12 @@ func init() {
 	vf.Register(&vf.Check{
 		ID:    "C35",
 		Level: "exploration",
-		Rule: "case = one history of AddVote/SetPeerMaj23 calls on a VoteSet (or HeightVoteSet); (a) exhaustive, 4 validators with equal powers: thorough = every sequence of length 6 over the 14-op alphabet " +
-			"{4 validators x {block A, block B, nil}} + {peer claim for A, peer claim for B}; quick = every length-5 sequence of the 12 votes and every length-4 sequence of the 14 ops; in both tiers every sequence of length L-1 (L = 5 quick, 6 thorough) over the 14 ops for the power profiles (1,1,1,3), (1,2,3,4), (3,1,1,1), 3x1; " +
+		Rule: "case = one history of AddVote/SetPeerMaj23 calls on a VoteSet (or HeightVoteSet); (a) exhaustive over the alphabet {4 validators x {block A, block B, nil}} (12 votes) + {peer claim for A, peer claim for B} (14 ops), 4 validators with equal powers: " +
+			"quick = every length-5 vote sequence whose first vote is by validator 0 and every length-4 sequence of the 14 ops; thorough = every length-6 vote sequence and every length-5 sequence of the 14 ops; " +
+			"in both tiers every sequence of length 3 (thorough 4) over the 14 ops for the power profiles (1,1,1,3), (1,2,3,4), (3,1,1,1), 3x1; " +
 			"(b) seeded random histories of up to 40 ops over 1..6 validators with unequal/huge powers, 4 blocks + nil, replays, re-signed votes, bad signatures, foreign keys, wrong index/address/height/round/type, nil votes, repeated/conflicting peer claims; " +
 			"(c) seeded random HeightVoteSet histories (SetRound, votes for tracked and catch-up rounds from 4 peers, peer claims). " +
-			"All queries are compared after every op. non-trivial = the history contains a conflicting vote, a rejected vote or reaches a +2/3 majority; distinct by the op sequence",
+			"All queries are compared after every op (in the exhaustive sweeps the full query comparison of each distinct prefix is done once). non-trivial = the history contains a conflicting vote, a rejected vote or reaches a +2/3 majority; distinct by the op sequence",
 		Run: run,
 	})
 }
@@ -672,7 +673,9 @@ type exOp struct {
 	valid bool
 }
 
-func exhaustive(c *vf.Ctx, name string, power []int64, length int, withPeers bool, typ types.SignedMsgType, stream uint64) {
+// exhaustive runs every op sequence of the given length; firstOps > 0 restricts the first op to the first `firstOps`
+// alphabet entries (the votes of validator 0).
+func exhaustive(c *vf.Ctx, name string, power []int64, length int, withPeers bool, firstOps int, typ types.SignedMsgType, stream uint64) {
 	rg := newRing(power)
 	var ops []exOp
 	for v := 0; v < rg.n; v++ {
@@ -699,6 +702,9 @@ func exhaustive(c *vf.Ctx, name string, power []int64, length int, withPeers boo
 		rest *= k
 	}
 	c.Parallel(tasks, 16, stream, func(t int, _ *rand.Rand) {
+		if first := t / (tasks / k); firstOps > 0 && first >= firstOps {
+			return
+		}
 		tl := tally{}
 		defer tl.flush(c)
 		seq := make([]int, length)
@@ -1096,22 +1102,25 @@ func randomHeightVoteSet(c *vf.Ctx, i int, r *rand.Rand) {
 }
 
 func run(c *vf.Ctx) {
-	L := c.N(5, 6)
-	c.Logf("exhaustive equal powers, length %d", L)
-	if c.Quick() { // votes only at length 5, votes + peer claims at length 4
-		exhaustive(c, "eq4v", []int64{1, 1, 1, 1}, L, false, types.PrecommitType, 1000)
-		exhaustive(c, "eq4", []int64{1, 1, 1, 1}, L-1, true, types.PrecommitType, 50000)
+	eq := []int64{1, 1, 1, 1}
+	if c.Quick() {
+		c.Logf("exhaustive equal powers: votes only, length 5, first vote by validator 0; all 14 ops, length 4")
+		exhaustive(c, "eq4v0", eq, 5, false, 3, types.PrecommitType, 1000)
+		exhaustive(c, "eq4", eq, 4, true, 0, types.PrecommitType, 50000)
 	} else {
-		exhaustive(c, "eq4", []int64{1, 1, 1, 1}, L, true, types.PrecommitType, 1000)
+		c.Logf("exhaustive equal powers: votes only, length 6; all 14 ops, length 5")
+		exhaustive(c, "eq4v", eq, 6, false, 0, types.PrecommitType, 1000)
+		exhaustive(c, "eq4", eq, 5, true, 0, types.PrecommitType, 50000)
 	}
 	c.Count("exhaustive_spaces", 1)
+	pl := c.N(3, 4)
 	for pi, p := range [][]int64{{1, 1, 1, 3}, {1, 2, 3, 4}, {3, 1, 1, 1}, {1, 1, 1}} {
 		typ := types.PrecommitType
 		if pi%2 == 1 {
 			typ = types.PrevoteType
 		}
-		c.Logf("exhaustive powers %v, length %d", p, L-1)
-		exhaustive(c, fmt.Sprint(p), p, L-1, true, typ, uint64(100000*(pi+2)))
+		c.Logf("exhaustive powers %v, length %d", p, pl)
+		exhaustive(c, fmt.Sprint(p), p, pl, true, 0, typ, uint64(100000*(pi+2)))
 		c.Count("exhaustive_spaces", 1)
 	}
 	c.SetExhaustive(true)
